@@ -161,11 +161,11 @@ theorem wfRes_parts {r : Res} (h : wfRes r = true) :
   obtain ⟨⟨⟨h1, h2⟩, h3⟩, h4⟩ := h
   refine ⟨?_, ?_, ?_, ?_⟩
   · intro mb hm; simp only at hm; subst hm
-    have : mb.natAbs < 262144 := by simpa [wfMB] using h1
-    exact Nat.lt_of_lt_of_le this (by decide)
+    simp only [wfMB, gbRoundTrips, Bool.and_eq_true, decide_eq_true_eq] at h1
+    exact h1.1
   · intro mb hm; simp only at hm; subst hm
-    have : mb.natAbs < 262144 := by simpa [wfMB] using h2
-    exact Nat.lt_of_lt_of_le this (by decide)
+    simp only [wfMB, gbRoundTrips, Bool.and_eq_true, decide_eq_true_eq] at h2
+    exact h2.1
   · intro s hs; simp only at hs; subst hs; simpa using h3
   · intro t ht; simp only at ht; subst ht; simpa using h4
 
